@@ -124,6 +124,30 @@ class Source:
         return i
 
 
+class ReSource:
+    """A lazy host collection that can be iterated again and again but is
+    neither an iterator nor sized (like an ORM query object): __iter__ is a
+    generator function over one shared instrumented Source."""
+
+    def __init__(self, **kw):
+        self.src = Source(**kw)
+
+    def __iter__(self):
+        src = self.src
+
+        def gen():
+            while True:
+                try:
+                    yield next(src)
+                except StopIteration:
+                    return
+        return gen()
+
+    @property
+    def pulls(self):
+        return self.src.pulls
+
+
 # --------------------------------------------------------------------------
 # outcomes
 
